@@ -242,16 +242,21 @@ func timeoutFromHeaders(headers metadata.MD) (time.Duration, bool) {
 		return 0, false
 	}
 	timeoutStr := vals[len(vals)-1]
-	if len(timeoutStr) < 2 {
+	// The gRPC spec allows at most 8 digits plus the unit.
+	if len(timeoutStr) < 2 || len(timeoutStr) > 9 {
 		return 0, false
 	}
-	timeout, err := strconv.Atoi(timeoutStr[:len(timeoutStr)-1])
+	timeout, err := strconv.ParseUint(timeoutStr[:len(timeoutStr)-1], 10, 64)
 	if err != nil {
 		return 0, false
 	}
 	duration := time.Duration(timeout)
 	switch timeoutStr[len(timeoutStr)-1] {
 	case 'H':
+		if duration > math.MaxInt64/time.Hour {
+			// would overflow; saturate instead of wrapping
+			return math.MaxInt64, true
+		}
 		return duration * time.Hour, true
 	case 'M':
 		return duration * time.Minute, true
